@@ -116,7 +116,7 @@ func (c *GenCfg) without(ks ...string) {
 
 var rawStrings = []string{"caf\xe9", "\xff\xfeab", "ab\xc3", "a\x80b\x80c", "\xe9\xe8\xe7\xe6\xe5"}
 
-var strDomain = []string{"a", "ab", "abc", "abcd", "hello", "Hello1", "x!", "zzz", "abcdefgh", "Q", "7up", "a b", "12", "true", "é", "ab#", "pa$$w0rd", "$HOME", "a${b}c", "50%", "red,green", "a, b", "\u200b", "\ufeffx"}
+var strDomain = []string{"a", "ab", "abc", "abcd", "hello", "Hello1", "x!", "zzz", "abcdefgh", "Q", "7up", "a b", "12", "true", "é", "ab#", "pa$$w0rd", "$HOME", "a${b}c", "50%", "red,green", "a, b", "\u200b", "\ufeffx", " ab ", "go "}
 var timeBase = "2024-01-10T00:00:00Z"
 
 func dayTime(k int) string {
@@ -553,7 +553,11 @@ func genKind(r *Rng, c *GenCfg, kind string, depth int) *Node {
 		n.Elem = GenNode(r, c, depth+1, false)
 		if r.P(c.PDef) && n.Elem.IsPrim() {
 			l := VL()
-			for i := 0; i < 1+r.Intn(c.MaxElems); i++ {
+			ne := 1 + r.Intn(c.MaxElems)
+			if r.P(0.15) {
+				ne = 0 // an empty list as the default
+			}
+			for i := 0; i < ne; i++ {
 				l.L = append(l.L, genTyped(r, n.Elem.Kind))
 			}
 			n.Def = &l
